@@ -217,7 +217,10 @@ def gen_scheduler():
               "result = self._get_next_step()",
               "if result is None:\n    logger.debug('No runnable steps found')\n    return None",
               "step, state = result", "job = self._derive_job(step)", "step.set_state(state)", "return job"]
-    if calls != expect:
+    # astutil.parse_module drops log-only statements, so the `if result is None` arm arrives without its
+    # logger.debug line; the literal form is still accepted for a tree parsed without that normalisation
+    expect_nolog = [c.replace("\n    logger.debug('No runnable steps found')", "") for c in expect]
+    if calls != expect and calls != expect_nolog:
         raise TranslatorError(f"pop_next_job transaction skeleton changed: {calls}")
     return out
 
